@@ -27,13 +27,6 @@ impl RwsDisp for i32 {
     #[verifier::external_body]
     fn rws_disp(&self) -> String { self.to_string() }
 }
-impl RwsFromStr for i32 {
-    type E = core::num::ParseIntError;
-    open spec fn parses(s: Seq<char>) -> bool { parses_signed(s, i32::MIN as int, i32::MAX as int) }
-    open spec fn val(s: Seq<char>) -> i32 { signed_val(s) as i32 }
-    #[verifier::external_body]
-    fn rws_from_str(s: &str) -> Result<i32, core::num::ParseIntError> { s.parse::<i32>() }
-}
 impl RwsDisp for &String {
     open spec fn disp(&self) -> Seq<char> { (**self)@ }
     #[verifier::external_body]
